@@ -86,6 +86,11 @@ CLAIMED = {
    note="Fuel exhaustion (None) is excluded by the statements and never observed. 'distance = shortest path' for graph complexity is compared with networkx per run, not proved (partial). No axioms.",
    technique="Coq BFS invariant proof + double-counting theorem; exact rational comparison with the implementation",
    design="6 C15"),
+ "C12": dict(
+   text="Proof + differential exploration. Model/Linear.v is PauliStringLinear over Gaussian-integer coefficients (dictionary sums in insertion order, zero terms dropped). Proved for every n and all term lists: the matrix of a@b is the matrix product, of a+b the sum, of c*a the scaled matrix, of a.h the conjugate transpose; simplify keeps the matrix; trace = matrix trace; is_zero exactly when the matrix vanishes and matrices equal exactly when collected coefficients agree (linear independence of Pauli matrices over Z[i], proved from trace orthogonality). The snapshot is refuted on three witnesses. Per run: random term lists (repeats, zeros, cancellations, empty, aliased operands) n<=4: results as term multisets vs the model, numpy matrices for n<=3, str() parsed back.",
+   note="Float rounding, the 1e-12/isclose tolerances and :.8g formatting are not modelled (partial w.r.t. floats). The step from 'coefficients agree' to the implementation's dictionary comparison in __eq__ is compared per run, not proved. No axioms.",
+   technique="Coq proofs of matrix semantics incl. linear independence + exact term-level correspondence",
+   design="6 C12"),
  "C04": dict(
    text="Proof: Coq theorems C04_product/commute/adjoint/conj/reject hold for every n and every pair of strings, about a bit-level model of PauliString.sign/commutes_with/multiply/adjoint_map/complex_conj and the Kronecker-product matrices over Z[i]. The model is tied to /repo on every run by a correspondence run: all 16^n pairs n<=3 (n<=4 thorough) plus random pairs up to n=64 and all length mismatches, implementation vs extracted model, and numpy matrices multiplied out for n<=3.",
    note="Trusted: Coq kernel, extraction (ExtrOcamlBasic), OCaml driver, Python harness; numpy kron/@ taken as the matrices. No axioms (Print Assumptions: closed).",
